@@ -280,7 +280,7 @@ fn run_program<T: Payload>(p: &Program, seed: u64, long: bool, closer_delay_us: 
     let mut rng = Rng::new(seed);
     for (i, tp) in p.threads.iter().enumerate() {
         let mut ctx = ThreadCtx::<T>::new(i as u16, payload::FIRST_UNIQUE + i as u64 * span, payload::FIRST_UNIQUE + (i as u64 + 1) * span);
-        ctx.pat = seed ^ (i as u64) << 8;
+        ctx.set_pat(seed ^ (i as u64) << 8);
         ctx.keep_one = long && tp.sender.is_some() && tp.receiver.is_some() && tp.ops.len() == 24;
         if let Some(a) = tp.sender {
             ctx.senders.push(s.clone_as(a));
